@@ -104,7 +104,14 @@ def run_harness(pid, rep, mode, inputs, trace, extra=()):
         cur = open(trace + ".hang").read() if os.path.exists(trace + ".hang") else ""
         rep.violation("%s/Wire/hang" % pid, "decoder did not return within the watchdog limit on %s" % cur[:400],
                       {"component": "wire", "mode": mode, "input": cur})
-        raise vlib.ToolError("vh-wire hung (reported as violation); trace incomplete")
+        raise vlib.StopWithViolations("vh-wire hung (reported as violation); trace incomplete")
+    if p.returncode < 0 or p.returncode == 101:
+        # the process was killed by a signal (abort on allocation failure, stack overflow) or a panic escaped every guard:
+        # the code under test took the harness down while decoding untrusted bytes
+        cur = open(trace + ".hang").read() if os.path.exists(trace + ".hang") else ""
+        rep.violation("%s/Wire/died/%s" % (pid, mode), "the decoder killed the process (exit %d) %s: %s" % (p.returncode, cur[:300], (p.stderr or "")[-400:]),
+                      {"component": "wire", "mode": mode, "input": cur, "stderr": (p.stderr or "")[-1500:]})
+        raise vlib.StopWithViolations("vh-wire died with exit %d (reported as violation)" % p.returncode)
     if p.returncode != 0:
         raise vlib.ToolError("vh-wire %s exited %d: %s" % (mode, p.returncode, (p.stderr or "")[-800:]))
 
